@@ -440,6 +440,19 @@ def extract(repo):
         else:
             raise AnchorLost('ConnectionInner::shutdown: unrecognised arm ' + pat[:60])
 
+    # ---- the public driver entry points: whole bodies pinned (comment-free, whitespace-free)
+    srv = Source(repo + '/h3/src/server/connection.rs')
+    body, spans['accept'] = fn_text(srv, 'accept')
+    exp_accept = ['letstream=matchpoll_fn(|cx|self.poll_accept_request_stream_internal(cx)).await?{Some(s)=>FrameStream::new(BufRecvStream::new(s)),None=>{self.shutdown(0).await?;returnOk(None);}};',
+                  'letresolver=self.create_resolver_internal(stream);', 'self.inner.send_grease_frame=false;', 'Ok(Some(resolver))']
+    if statements(body) != exp_accept:
+        raise AnchorLost('server::Connection::accept is not `poll_accept_request_stream_internal(..).await?` / shutdown(0).await? any more: ' +
+                         str([x[:60] for x in statements(body)]))
+    cli = Source(repo + '/h3/src/client/connection.rs')
+    body, spans['wait_idle'] = fn_text(cli, 'wait_idle')
+    if statements(body) != ['future::poll_fn(|cx|self.poll_close(cx)).await']:
+        raise AnchorLost('client::Connection::wait_idle is not poll_fn(poll_close) any more')
+
     # ---- crate-wide: who else touches the cell / the waker, and how handles get their shared state
     sites = {'set_conn_error': [], 'cell_field': [], 'waker': [], 'fresh_state': [], 'wiring': []}
     for crate in ('h3', 'h3-datagram', 'h3-webtransport'):
@@ -467,6 +480,36 @@ def extract(repo):
                     if rhs.startswith('Arc<') or rhs.startswith('&'):
                         continue  # a field / parameter type
                     sites['wiring'].append((rel, m.group(1), rhs))
+    # connection errors are BUILT only by convert_to_connection_error / the raw helpers, the transport is closed only by
+    # close_if_needed (and Drop), stream handles wrap connection errors only in the CloseStream helpers
+    def per_file(pattern):
+        out = {}
+        for crate in ('h3', 'h3-datagram', 'h3-webtransport'):
+            for dp, dn, fns in os.walk(os.path.join(repo, crate, 'src')):
+                if os.sep + 'tests' in dp:
+                    continue
+                for fn in sorted(fns):
+                    if fn.endswith('.rs') and fn != 'verif.rs':
+                        path = os.path.join(dp, fn)
+                        n = len(re.findall(pattern, strip_comments(open(path, encoding='utf-8').read())))
+                        if n:
+                            out[os.path.relpath(path, repo)] = n
+        return out
+    expect = [
+        ('ConnectionError:: variant sites', r'\bConnectionError\s*::\s*(?:Local|Remote|Timeout)\b',
+         {'h3/src/error/connection_error_creators.rs': 7, 'h3/src/error/error.rs': 5, 'h3-datagram/src/datagram_handler.rs': 1}),
+        ('StreamError::ConnectionError( sites', r'\bStreamError\s*::\s*ConnectionError\s*\(',
+         {'h3/src/error/connection_error_creators.rs': 2, 'h3/src/error/error.rs': 2, 'h3-webtransport/src/server.rs': 3}),
+        ('close_connection( sites', r'(?<!fn )\bclose_connection\s*\(',
+         {'h3/src/error/connection_error_creators.rs': 2, 'h3/src/server/connection.rs': 1}),
+        ('.close( sites', r'\.\s*close\s*\(',
+         {'h3/src/error/connection_error_creators.rs': 3}),
+        ('is_h3_no_error( uses', r'\.\s*is_h3_no_error\s*\(', {'h3/src/error/error.rs': 1}),
+    ]
+    for what, pat, exp in expect:
+        got = per_file(pat)
+        if got != exp:
+            raise AnchorLost('%s moved: %s (expected %s)' % (what, got, exp))
     exp_set = ['h3/src/error/connection_error_creators.rs', 'h3/src/shared_state.rs']
     if sorted(sites['set_conn_error']) != exp_set:
         raise AnchorLost('set_conn_error( is called at %s (expected once in handle_connection_error and once in set_conn_error_and_wake)' % sorted(sites['set_conn_error']))
@@ -517,13 +560,12 @@ def render(f):
          'Definition shutdown_guard : bool := %s.' % ('true' if f['shutdown_guard'] else 'false'),
          'Definition close_arms : list (origin_pat * code_src) := [%s].' % '; '.join('(%s, %s)' % a for a in f['close_arms']),
          'Definition convert_arms : list (origin_pat * conv_target) := [%s].' % '; '.join('(%s, %s)' % a for a in f['convert_arms']),
-         '(* the stream side: both CloseStream helpers are `set_conn_error_and_wake; report convert(returned value)`; the',
-         '   frame-error dispatcher sends every arm through one of them; nobody else calls set_conn_error, touches the',
-         '   cell or the waker; every handle is built with a clone of the connection\'s Arc<SharedState> *)',
+         '(* the frame-error dispatcher: which helper every arm goes through.  (That both CloseStream helpers are',
+         '   `set_conn_error_and_wake; report convert(returned value)`, that nobody else calls set_conn_error / touches the cell or',
+         '   the waker / builds a ConnectionError / closes the transport, and that every handle is built with a clone of the',
+         '   connection\'s Arc<SharedState> is enforced by the translator itself: it refuses to generate this file otherwise.) *)',
          'Definition frame_error_arms : list (fs_pat * fs_path) := [%s].' % '; '.join('(%s, %s)' % a for a in f['frame_error_arms']),
-         'Definition stream_helpers_raise_and_wake : bool := true.',
-         'Definition cell_and_waker_sites_closed : bool := true.',
-         'Definition handles_share_connection_state : bool := true.']
+         ]
     return '\n'.join(L) + '\n'
 
 
